@@ -47,9 +47,7 @@ Fixpoint good (t : hy) : bool :=
       forallb good l && negb (existsb bare_um l)
       && match l with
          | HSym s :: args =>
-             if is_compare_head s then negb (existsb is_um args)
-             else if text_eqb s s_chainc then negb (existsb is_um args) && (3 <=? length args)
-             else true
+             if text_eqb s s_chainc then 3 <=? length args else true
          | _ => true
          end
   end.
@@ -113,7 +111,7 @@ Proof.
     + specialize (Hin h v rest eq_refl). destruct (comp v) eqn:Cv; cbn in Hin.
       * destruct (collect_with comp wk dd r) as [es ks|bad]; [|exact IHr]. destruct IHr as [I1 I2].
         destruct dd; [split; [constructor; [exact I | constructor; [exact Hin | assumption]] | assumption]|].
-        destruct wk; split; try assumption. constructor; [exact Hin | assumption].
+        destruct wk; [split; try assumption; constructor; [exact Hin | assumption] | split; [exact I | discriminate]].
       * split; [exact I | discriminate].
       * destruct Hin.
       * split; [exact I | discriminate].
@@ -150,7 +148,7 @@ Proof.
     destruct (collect_with comp wk dd r) as [es ks|bad]; [|exact IHr]. destruct IHr as [I1 I2].
     pose proof (Hin e eq_refl) as He.
     destruct dd; [split; [constructor; [exact I | constructor; [exact He | assumption]] | assumption]|].
-    destruct wk; split; try assumption. constructor; [exact He | assumption].
+    destruct wk; [split; try assumption; constructor; [exact He | assumption] | intros e0; discriminate].
   - destruct x as [s|k|z|s|lx|lx|lx|lx|lx], wk; cbv beta iota;
       try (destruct (comp _) eqn:Cx; try (intros e0; discriminate);
            destruct (collect_with comp _ dd r) as [es ks|bad]; [destruct IHr as [I1 I2]; split; [constructor; [exact (Hx _ eq_refl) | assumption] | assumption] | exact IHr]).
@@ -184,18 +182,20 @@ Proof.
       inversion G; subst. cbn. rewrite (IH _ _ eq_refl). reflexivity.
 Qed.
 
-Lemma collect_len_noum comp : forall l es ks,
-  collect_with comp false false l = Coll es ks -> existsb is_um l = false -> length (somes es) = length l.
+Lemma collect_len comp : forall l es ks,
+  collect_with comp false false l = Coll es ks -> length (somes es) = length l.
 Proof.
-  induction l as [|x r IH]; intros es ks E N.
+  induction l as [|x r IH]; intros es ks E.
   - cbn in E. inversion E. reflexivity.
-  - cbn [existsb] in N. apply orb_false_iff in N. destruct N as [Nx Nr].
-    cbn [Compile.collect_with] in E. fold (collect_with comp false false) in E. unfold is_um in Nx. rewrite Nx in E.
-    assert (G : match comp x with
-                | COk e => match collect_with comp false false r with Coll es0 ks0 => Coll (Some e :: es0) ks0 | CollErr r0 => CollErr r0 end
-                | bad => CollErr bad end = Coll es ks) by (destruct x; exact E).
-    destruct (comp x); try discriminate. destruct (collect_with comp false false r) as [es' ks'|]; [|discriminate].
-    inversion G; subst. cbn. f_equal. exact (IH _ _ eq_refl Nr).
+  - cbn [Compile.collect_with] in E. fold (collect_with comp false false) in E.
+    destruct (is_unpack s_unpack_mapping x) eqn:U.
+    + destruct x as [| | | |lx| | | |]; try discriminate. destruct lx as [|h [|v rest]]; try discriminate.
+      destruct (comp v); try discriminate. destruct (collect_with comp false false r); discriminate.
+    + assert (G : match comp x with
+                  | COk e => match collect_with comp false false r with Coll es0 ks0 => Coll (Some e :: es0) ks0 | CollErr r0 => CollErr r0 end
+                  | bad => CollErr bad end = Coll es ks) by (destruct x; exact E).
+      destruct (comp x); try discriminate. destruct (collect_with comp false false r) as [es' ks'|]; [|discriminate].
+      inversion G; subst. cbn. f_equal. exact (IH _ _ eq_refl).
 Qed.
 
 Lemma evens_map {A B} (f : A -> B) : forall l, evens (map f l) = map f (evens l).
@@ -230,6 +230,11 @@ Proof.
   cbn [validate]. rewrite D1. cbn [andb]. apply andb_true_iff. split.
   - exact (keys_ok _ (Forall_evens _ _ F)).
   - exact (vals_ok _ (Forall_odds _ _ F) D2).
+Qed.
+
+Lemma evens_odds_even {A} : forall (l : list A), length (evens l) = length (odds l) -> Nat.even (length l) = true.
+Proof.
+  fix IH 1. intros [|a [|b r]] H; [reflexivity | discriminate |]. cbn in H. inversion H as [H']. cbn. apply IH. destruct r; [reflexivity|]. exact H'.
 Qed.
 
 (* ---------------------------------------------------------------- pieces of the handlers *)
@@ -280,19 +285,21 @@ Lemma collect1_W comp x : elem_ok W comp x ->
 Proof.
   intros [Hx Hin]. unfold collect1. destruct (is_unpack s_unpack_mapping x).
   - destruct x as [| | | |lx| | | |]; try (intros e; discriminate). destruct lx as [|h [|v rest]]; try (intros e; discriminate).
-    destruct (comp v); try (intros e0; discriminate). exact I.
+    destruct (comp v); intros e0; discriminate.
   - destruct (comp x) eqn:C; try (intros e0; discriminate). exact (Hx _ eq_refl).
 Qed.
 
-Lemma collect1_noum comp x o : is_um x = false -> collect1 comp x = inr o -> is_some o = true.
+Lemma collect1_some comp x o : collect1 comp x = inr o -> is_some o = true.
 Proof.
-  unfold collect1, is_um. intros ->. destruct (comp x); try discriminate. intros E. inversion E. reflexivity.
+  unfold collect1. destruct (is_unpack s_unpack_mapping x).
+  - destruct x as [| | | |lx| | | |]; try discriminate. destruct lx as [|h [|v rest]]; try discriminate. destruct (comp v); discriminate.
+  - destruct (comp x); try discriminate. intros E. inversion E. reflexivity.
 Qed.
 
 Lemma chain_W comp cop : forall rest ops es,
   Forall (elem_ok W comp) rest -> chain_with comp cop rest = Chain ops es ->
   Forall okopt es /\ length ops = length es /\ 2 * length es = length rest
-  /\ (existsb is_um rest = false -> length (somes es) = length es).
+  /\ length (somes es) = length es.
 Proof.
   induction rest as [rest IH] using (well_founded_induction (Wf_nat.well_founded_ltof _ (@length hy))).
   intros ops es HF E. destruct rest as [|a [|x r]].
@@ -308,8 +315,7 @@ Proof.
     + constructor; assumption.
     + cbn. f_equal. exact I2.
     + cbn. lia.
-    + intros N. cbn [existsb] in N. apply orb_false_iff in N. destruct N as [_ N]. apply orb_false_iff in N. destruct N as [Nx Nr].
-      pose proof (collect1_noum comp x oe Nx C) as S. destruct oe; [|discriminate]. cbn. f_equal. exact (I4 Nr).
+    + pose proof (collect1_some comp x oe C) as S. destruct oe; [|discriminate]. cbn. f_equal. exact I4.
 Qed.
 
 
@@ -326,11 +332,10 @@ Proof. intros H. eapply Forall_impl; [|exact H]. intros x [A _]. exact A. Qed.
 
 Lemma handler_W comp head args :
   Forall (elem_ok W comp) args ->
-  (is_compare_head head = true -> existsb is_um args = false) ->
-  (text_eqb head s_chainc = true -> existsb is_um args = false /\ 3 <= length args) ->
+  (text_eqb head s_chainc = true -> 3 <= length args) ->
   W (handler mangle comp head args).
 Proof.
-  intros HF Hcmp Hch. pose proof (Forall_W_of _ _ HF) as HW. unfold handler.
+  intros HF Hch. pose proof (Forall_W_of _ _ HF) as HW. unfold handler.
   destruct (lookup head unary_ops_class) as [cls|] eqn:L1.
   { destruct args as [|x [|? ?]]; try (intros ee; discriminate). inversion HW as [|? ? Hx _]; subst.
     destruct (comp x) eqn:C; try (intros ee; discriminate). intros ee E. inversion E; subst. cbn. exact (Hx _ eq_refl). }
@@ -342,15 +347,14 @@ Proof.
       + cbn in A. rewrite andb_true_r in A. exact A.
       + cbn [validate]. cbn [length]. exact A. }
   destruct (lookup head c_ops_class) as [ccls|] eqn:L3.
-  { assert (N : existsb is_um args = false) by (apply Hcmp; unfold is_compare_head; rewrite L3; reflexivity).
-    assert (G : length args <> 1 -> W (match c_op mangle head with
+  { assert (G : length args <> 1 -> W (match c_op mangle head with
                    | None => CUser
                    | Some cls => match collect_with comp false false args with
                                  | Coll es _ => match somes es with [] => CUser | e0 :: rest => COk (ECompare e0 (map (fun _ => cls) (tl args)) rest) end
                                  | CollErr bad => bad end end)).
     { intros NL. destruct (c_op mangle head) as [cls|]; [|intros ee; discriminate].
       pose proof (collect_W comp false false args HF) as C. destruct (collect_with comp false false args) as [es ks|bad] eqn:CE.
-      - destruct C as [C1 _]. pose proof (collect_len_noum comp args es ks CE N) as Len. pose proof (somes_ok _ C1) as SV.
+      - destruct C as [C1 _]. pose proof (collect_len comp args es ks CE) as Len. pose proof (somes_ok _ C1) as SV.
         destruct (somes es) as [|e0 rest]; [intros ee; discriminate|]. intros ee E. inversion E; subst.
         cbn in SV. apply andb_true_iff in SV. destruct SV as [S0 SR]. cbn [validate].
         destruct args as [|a0 args']; [discriminate|]. cbn [tl]. rewrite map_length. cbn in Len. inversion Len as [Len'].
@@ -397,12 +401,11 @@ Proof.
   { destruct args as [|x [|? ?]]; try (intros ee; discriminate). inversion HW as [|? ? Hx _]; subst.
     destruct (comp x) eqn:C; try (intros ee; discriminate). intros ee E. inversion E; subst. cbn. exact (Hx _ eq_refl). }
   destruct (text_eqb head s_chainc) eqn:L8; [|intros ee; discriminate].
-  destruct (Hch eq_refl) as [N Len].
+  pose proof (Hch eq_refl) as Len.
   destruct args as [|x rest]; [intros ee; discriminate|]. inversion HF as [|? ? _ HFr]; subst. inversion HW as [|? ? Hx _]; subst.
   destruct (comp x) eqn:Cx.
   - pose proof (chain_W comp (c_op mangle) rest) as CW. destruct (chain_with comp (c_op mangle) rest) as [ops es|bad|] eqn:CE.
-    + destruct (CW ops es HFr eq_refl) as (I1 & I2 & I3 & I4). cbn [existsb] in N. apply orb_false_iff in N. destruct N as [_ Nr].
-      specialize (I4 Nr). intros ee E. inversion E; subst. cbn [validate]. pose proof (somes_ok _ I1) as SV.
+    + destruct (CW ops es HFr eq_refl) as (I1 & I2 & I3 & I4). intros ee E. inversion E; subst. cbn [validate]. pose proof (somes_ok _ I1) as SV.
       cbn [length] in Len. rewrite I4, I2, Nat.eqb_refl, (Hx _ eq_refl), SV.
       destruct es; [cbn in I3; lia | reflexivity].
     + intros ee E. subst bad. exfalso.
@@ -505,12 +508,8 @@ Proof.
         -- apply call_V; [reflexivity | assumption | assumption].
         -- destruct (grammar_accepts ps args); [|exact I]. apply W_in_macro. apply handler_W.
            ++ apply Forall_elem_W_weaken. exact EOa.
-           ++ intros IC. cbn [good] in G. apply andb_true_iff in G. destruct G as [_ G]. rewrite IC in G. apply negb_true_iff in G. exact G.
            ++ intros IC. cbn [good] in G. apply andb_true_iff in G. destruct G as [_ G].
-              destruct (is_compare_head s) eqn:ICH.
-              ** exfalso. unfold is_compare_head in ICH. apply text_eqb_eq in IC. subst s. vm_compute in ICH. discriminate.
-              ** rewrite IC in G. apply andb_true_iff in G. destruct G as [G1 G2]. apply negb_true_iff in G1.
-                 split; [exact G1 | apply Nat.leb_le in G2; exact G2].
+              rewrite IC in G. apply Nat.leb_le in G. exact G.
       * apply call_V; [apply compile_symbol_valid | assumption | assumption].
     + (* expression head *)
       destruct lr as [|h ?]; [exact Generic|]. destruct h; try exact Generic.
@@ -524,8 +523,13 @@ Proof.
   - destruct (good_kids _ G) as [GK GB]. cbn [kids] in GK, GB. cbn [Compile.compile]. fold compile.
     pose proof (collect_V compile false true l (elems_ok l H GK) GB) as C.
     destruct (collect_with compile false true l) as [es ks|bad] eqn:CE; [|exact (proj1 C)].
-    destruct C as [C1 _]. cbn [V]. apply dict_valid; [exact C1|].
-    rewrite (collect_shape_dict compile l es ks CE). cbn [good] in G. apply andb_true_iff in G. exact (proj2 G).
+    destruct C as [C1 _].
+    assert (D : dict_ok (map is_some es) = true).
+    { rewrite (collect_shape_dict compile l es ks CE). cbn [good] in G. apply andb_true_iff in G. exact (proj2 G). }
+    assert (Ev : Nat.even (length es) = true).
+    { unfold dict_ok in D. apply andb_true_iff in D. destruct D as [D1 _]. rewrite evens_map, odds_map, !map_length in D1.
+      apply Nat.eqb_eq in D1. exact (evens_odds_even es D1). }
+    rewrite Ev. cbn [V]. apply dict_valid; assumption.
 Qed.
 
 End Proofs.
@@ -535,24 +539,23 @@ End Proofs.
 Definition sym (l : list nat) : hy := HSym (t_of l).
 Definition x_ : hy := sym [120].
 
-(* {1}: an odd dict compiles to a Dict with one key and no value *)
-Example refuted_odd_dict :
-  exists e, compile toy_mangle (HDict [HInt 1]) = COk e /\ validate e = false.
-Proof. eexists. split; vm_compute; reflexivity. Qed.
+(* {1}: an odd dict is a syntax error (fix bac53a5; it used to compile to a Dict with one key and no value) *)
+Example odd_dict_is_user_error : compile toy_mangle (HDict [HInt 1]) = CUser.
+Proof. vm_compute. reflexivity. Qed.
+
+(* (= x x #** x): a syntax error (fix c0e258f; the #** operand used to be dropped) *)
+Example compare_unpack_mapping_is_user_error :
+  compile toy_mangle (HExpr [sym [61]; x_; x_; HExpr [HSym s_unpack_mapping; x_]]) = CUser.
+Proof. vm_compute. reflexivity. Qed.
 
 (* (chainc x): Compare without comparators *)
 Example refuted_chainc_single :
   exists e, compile toy_mangle (HExpr [sym [99;104;97;105;110;99]; x_]) = COk e /\ validate e = false.
 Proof. eexists. split; vm_compute; reflexivity. Qed.
 
-(* (= x x #** x): the #** operand is dropped, the operator list is not *)
-Example refuted_compare_unpack_mapping :
-  exists e, compile toy_mangle (HExpr [sym [61]; x_; x_; HExpr [HSym s_unpack_mapping; x_]]) = COk e /\ validate e = false.
-Proof. eexists. split; vm_compute; reflexivity. Qed.
-
-(* {x #** x x}: the None marker of a dict unpacking lands among the values *)
+(* {x #** x x x}: an even number of forms, but the None marker of the dict unpacking lands among the values *)
 Example refuted_dict_unpack_misaligned :
-  exists e, compile toy_mangle (HDict [x_; HExpr [HSym s_unpack_mapping; x_]; x_]) = COk e /\ validate e = false.
+  exists e, compile toy_mangle (HDict [x_; HExpr [HSym s_unpack_mapping; x_]; x_; x_]) = COk e /\ validate e = false.
 Proof. eexists. split; vm_compute; reflexivity. Qed.
 
 (* [(unpack-mapping)]: indexing the argument-less form is an internal error outside a macro ... *)
